@@ -3,7 +3,7 @@
   equal the formulas the encoder cites offsets with, every out-of-band group sits at its cited
   offset, the directory serves the core stream of each type (extras of the same type are overridden).
 -/
-import MdProofs.Lemmas.EncodeMisc
+import MdProofs.Lemmas.EncodeHandles
 import MdProofs.Lemmas.BytesStreams
 namespace MdModel.Encode
 open MdModel MdModel.Dump MdModel.Gen.Layouts MdModel.Gen.LayoutsC02
@@ -61,19 +61,22 @@ theorem coreStreams_sizes (m : DumpModel) (e : Endian) (f : MemForm) :
   congr 1
   · congr 1
     · congr 1
-      · simp only [List.cons.injEq, Prod.mk.injEq, true_and, and_true]
-        refine ⟨?_, ?_, ?_, ?_, ?_, ?_⟩
-        · simp [encThreadList, listHeader_length, threadRecs_length, h48]; omega
-        · simp [encModuleList, listHeader_length, moduleRecs_length, h108]; omega
-        · cases f
-          · simp [encMemoryList, listHeader_length, memRecs_length, h16]; omega
-          · simp [encMemory64List, mem64Recs, h16']; omega
-        · simp [encMemInfoList, exListHeader, h48']; omega
-        · simp [encThreadNames, listHeader_length, nameRecs_length, h12]; omega
-        · simp [encUnloadedList, exListHeader, unloadedRecs_length, h24]; omega
-      · simp [encException, h168]
-    · simp [encSysInfo, h56]
-  · simp [encMiscInfo, miscInfoSize]
+      · congr 1
+        · simp only [List.cons.injEq, Prod.mk.injEq, true_and, and_true]
+          refine ⟨?_, ?_, ?_, ?_, ?_, ?_⟩
+          · simp [encThreadList, listHeader_length, threadRecs_length, h48]; omega
+          · simp [encModuleList, listHeader_length, moduleRecs_length, h108]; omega
+          · cases f
+            · simp [encMemoryList, listHeader_length, memRecs_length, h16]; omega
+            · simp [encMemory64List, mem64Recs, h16']; omega
+          · simp [encMemInfoList, exListHeader, h48']; omega
+          · simp [encThreadNames, listHeader_length, nameRecs_length, h12]; omega
+          · simp [encUnloadedList, exListHeader, unloadedRecs_length, h24]; omega
+        · simp [encException, h168]
+      · simp [encSysInfo, h56]
+    · simp [encMiscInfo, miscInfoSize]
+  · simp [encHandleData, handleDataSize, handleRecs_length, handleLayout_size,
+      show Layout.size MINIDUMP_HANDLE_DATA_STREAM = 16 by decide, Nat.mul_comm]
 
 theorem allStreams_sizes (m : DumpModel) (e : Endian) (f : MemForm) :
     (allStreams m e f).map (fun x => (x.1, x.2.length)) = streamSizes m f := by
@@ -90,7 +93,7 @@ theorem encodeStreams_all_length (m : DumpModel) (e : Endian) (f : MemForm) :
 /-! ## the out-of-band groups sit where the streams cite them -/
 
 theorem encodeList_eq (m : DumpModel) (e : Endian) (f : MemForm) :
-    (encode m e f).toList = encodeStreams e m.flags (allStreams m e f) ++ oobAll m e := by
+    (encode m e f).toList = encodeStreams e m.flags (allStreams m e f) ++ oobAll m e f := by
   simp [encode, encodeList]
 
 structure OobPlaced (b : Bytes) (m : DumpModel) (e : Endian) (f : MemForm) : Prop where
@@ -101,6 +104,7 @@ structure OobPlaced (b : Bytes) (m : DumpModel) (e : Endian) (f : MemForm) : Pro
   unloaded : Has b.toList (oobOffsets m f).unloaded (oobNames e (m.unloaded.map (·.name)))
   exc : Has b.toList (oobOffsets m f).exc (excCtx m)
   csd : Has b.toList (oobOffsets m f).csd (csdString e m)
+  handles : Has b.toList (oobOffsets m f).handles (handlesOob e (oobOffsets m f).handles m)
   size : b.size = (oobOffsets m f).stop
 
 theorem Has.at {l : List UInt8} {o o' : Nat} {c : List UInt8} (h : Has l o c) (ho : o = o') : Has l o' c := ho ▸ h
@@ -108,28 +112,34 @@ theorem Has.at {l : List UInt8} {o o' : Nat} {c : List UInt8} (h : Has l o c) (h
 theorem csdString_length (e : Endian) (m : DumpModel) : (csdString e m).length = csdSize m := by
   unfold csdString csdSize; cases m.sysInfo <;> simp [encString_length]
 
+theorem handlesOob_length (e : Endian) (off : Nat) (m : DumpModel) : (handlesOob e off m).length = handlesOobSize m := by
+  unfold handlesOob handlesOobSize; cases m.handles <;> simp [oobHandles_length]
+
 /-- **offset bookkeeping for the out-of-band data** -/
 theorem oob_placed (m : DumpModel) (e : Endian) (f : MemForm) : OobPlaced (encode m e f) m e f := by
-  have h0 : Has (encode m e f).toList (oobStart m f) (oobAll m e) :=
+  have h0 : Has (encode m e f).toList (oobStart m f) (oobAll m e f) :=
     ⟨encodeStreams e m.flags (allStreams m e f), [], by simp [encodeList_eq], encodeStreams_all_length m e f⟩
-  unfold oobAll at h0
-  have hG := h0.right
-  have hF := h0.left.right
-  have hE := h0.left.left.right
-  have hD := h0.left.left.left.right
-  have hC := h0.left.left.left.left.right
-  have hB := h0.left.left.left.left.left.right
-  have hA := h0.left.left.left.left.left.left
-  simp only [List.length_append, oobThreads_length, oobModules_length, oobMemory_length, oobNames_length] at hB hC hD hE hF hG
-  refine ⟨hA, hB, hC.at ?_, hD.at ?_, hE.at ?_, hF.at ?_, hG.at ?_, ?_⟩
+  unfold oobAll oobAllAt at h0
+  have hH := h0.right
+  have hG := h0.left.right
+  have hF := h0.left.left.right
+  have hE := h0.left.left.left.right
+  have hD := h0.left.left.left.left.right
+  have hC := h0.left.left.left.left.left.right
+  have hB := h0.left.left.left.left.left.left.right
+  have hA := h0.left.left.left.left.left.left.left
+  simp only [List.length_append, oobThreads_length, oobModules_length, oobMemory_length, oobNames_length,
+    csdString_length] at hB hC hD hE hF hG hH
+  refine ⟨hA, hB, hC.at ?_, hD.at ?_, hE.at ?_, hF.at ?_, hG.at ?_, hH.at ?_, ?_⟩
+  · simp only [oobOffsets]; omega
   · simp only [oobOffsets]; omega
   · simp only [oobOffsets]; omega
   · simp only [oobOffsets]; omega
   · simp only [oobOffsets]; omega
   · simp only [oobOffsets]; omega
   · have := congrArg List.length (encodeList_eq m e f)
-    simp only [Array.length_toList, List.length_append, encodeStreams_all_length, oobAll, oobThreads_length,
-      oobModules_length, oobMemory_length, oobNames_length, csdString_length] at this
+    simp only [Array.length_toList, List.length_append, encodeStreams_all_length, oobAll, oobAllAt, oobThreads_length,
+      oobModules_length, oobMemory_length, oobNames_length, csdString_length, handlesOob_length] at this
     rw [this]
     simp only [oobOffsets]
     omega
@@ -182,6 +192,7 @@ structure WellFormed (m : DumpModel) (f : MemForm) : Prop where
   exception : ∀ x, m.exception = some x → ExcFits x
   sysInfo : ∀ x, m.sysInfo = some x → SysInfoFits x
   miscInfo : ∀ x, m.miscInfo = some x → MiscFits x
+  handles : ∀ x, m.handles = some x → ∀ h ∈ x.handles, HandleFits h
   extra : ∀ x ∈ m.extra, x.1 ∈ coreTypes m f
 
 /-- the types of the six streams always present -/
@@ -190,11 +201,13 @@ def fixedTypes (f : MemForm) : List Nat :=
    ST_MEMORY_INFO_LIST, ST_THREAD_NAMES, ST_UNLOADED_MODULE_LIST]
 
 /-- every type the encoder can emit, in its order -/
-def allTypes (f : MemForm) : List Nat := fixedTypes f ++ [ST_EXCEPTION] ++ [ST_SYSTEM_INFO] ++ [ST_MISC_INFO]
+def allTypes (f : MemForm) : List Nat :=
+  fixedTypes f ++ [ST_EXCEPTION] ++ [ST_SYSTEM_INFO] ++ [ST_MISC_INFO] ++ [ST_HANDLE_DATA_STREAM]
 
 theorem coreTypes_eq (m : DumpModel) (f : MemForm) :
     coreTypes m f = fixedTypes f ++ optList m.exception (fun _ => ST_EXCEPTION) ++
-      optList m.sysInfo (fun _ => ST_SYSTEM_INFO) ++ optList m.miscInfo (fun _ => ST_MISC_INFO) := by
+      optList m.sysInfo (fun _ => ST_SYSTEM_INFO) ++ optList m.miscInfo (fun _ => ST_MISC_INFO) ++
+      optList m.handles (fun _ => ST_HANDLE_DATA_STREAM) := by
   unfold coreTypes coreStreamSizes fixedTypes
   simp only [List.map_append, List.map_cons, List.map_nil, optList_map]
   cases f <;> rfl
@@ -202,8 +215,8 @@ theorem coreTypes_eq (m : DumpModel) (f : MemForm) :
 theorem coreTypes_sublist (m : DumpModel) (f : MemForm) : List.Sublist (coreTypes m f) (allTypes f) := by
   rw [coreTypes_eq]
   unfold allTypes
-  exact (((List.Sublist.refl _).append (optList_sublist_const _ _)).append (optList_sublist_const _ _)).append
-    (optList_sublist_const _ _)
+  exact ((((List.Sublist.refl _).append (optList_sublist_const _ _)).append (optList_sublist_const _ _)).append
+    (optList_sublist_const _ _)).append (optList_sublist_const _ _)
 
 theorem allTypes_nodup (f : MemForm) : (allTypes f).Nodup := by cases f <;> decide
 
@@ -227,7 +240,7 @@ theorem readDump_encode {m : DumpModel} {f : MemForm} (wf : WellFormed m f) (e :
   have hstop := oobStart_le_stop m f
   have hsz := wf.size
   have hsb := streamsBytes_length (allStreams m e f)
-  apply readDump_enc e m.flags (allStreams m e f) (oobAll m e) (encodeList_eq m e f) (by omega) wf.flags
+  apply readDump_enc e m.flags (allStreams m e f) (oobAll m e f) (encodeList_eq m e f) (by omega) wf.flags
   apply dirFits_of_bound
   · intro x hx
     simp only [allStreams, List.mem_append] at hx
@@ -245,7 +258,7 @@ theorem getRawStream_encode {m : DumpModel} {f : MemForm} (wf : WellFormed m f) 
     (hd : d.streams = dirMap (allStreams m e f)) :
     getRawStream d (encode m e f) ty = .ok bs.toArray := by
   have hsz : (encode m e f).size < 2 ^ 32 := by rw [(oob_placed m e f).size]; exact wf.size
-  rw [getRawStream_enc e m.flags (allStreams m e f) (oobAll m e) (encodeList_eq m e f) hsz ty d hd]
+  rw [getRawStream_enc e m.flags (allStreams m e f) (oobAll m e f) (encodeList_eq m e f) hsz ty d hd]
   simp only [allStreams, lastOf_append, hcore]
 
 /-- a type the encoder does not emit is not in the directory at all -/
@@ -253,7 +266,7 @@ theorem getRawStream_encode_none {m : DumpModel} {f : MemForm} (wf : WellFormed 
     (hcore : ty ∉ coreTypes m f) (d : Dump) (hd : d.streams = dirMap (allStreams m e f)) :
     getRawStream d (encode m e f) ty = .error .StreamNotFound := by
   have hsz : (encode m e f).size < 2 ^ 32 := by rw [(oob_placed m e f).size]; exact wf.size
-  rw [getRawStream_enc e m.flags (allStreams m e f) (oobAll m e) (encodeList_eq m e f) hsz ty d hd]
+  rw [getRawStream_enc e m.flags (allStreams m e f) (oobAll m e f) (encodeList_eq m e f) hsz ty d hd]
   have h1 : lastOf ty (coreStreams m e f) = none := by
     apply lastOf_none_of_forall
     intro x hx heq
@@ -348,9 +361,14 @@ theorem core_miscInfo {x : MMiscInfo} (h : m.miscInfo = some x) : lastOf ST_MISC
     some (encMiscInfo e x) :=
   core_of_mem m e f (by simp [coreStreams, optList, h])
 
+theorem core_handles {x : MHandleData} (h : m.handles = some x) : lastOf ST_HANDLE_DATA_STREAM (coreStreams m e f) =
+    some (encHandleData e (oobOffsets m f).handles x) :=
+  core_of_mem m e f (by simp [coreStreams, optList, h])
+
 /-- the optional streams: (present?, type) -/
 def optTypes (m : DumpModel) : List (Bool × Nat) :=
-  [(m.exception.isSome, ST_EXCEPTION), (m.sysInfo.isSome, ST_SYSTEM_INFO), (m.miscInfo.isSome, ST_MISC_INFO)]
+  [(m.exception.isSome, ST_EXCEPTION), (m.sysInfo.isSome, ST_SYSTEM_INFO), (m.miscInfo.isSome, ST_MISC_INFO),
+   (m.handles.isSome, ST_HANDLE_DATA_STREAM)]
 
 theorem mem_optList_const {α : Type} {o : Option α} {t x : Nat} : x ∈ optList o (fun _ => t) ↔ (o.isSome = true ∧ x = t) := by
   cases o <;> simp [optList]
@@ -360,16 +378,18 @@ theorem mem_coreTypes {t : Nat} : t ∈ coreTypes m f ↔ t ∈ fixedTypes f ∨
   simp only [List.mem_append, mem_optList_const, optTypes, List.mem_cons, Prod.mk.injEq, List.not_mem_nil, or_false,
     or_assoc]
   constructor
-  · rintro (h | ⟨h1, h2⟩ | ⟨h1, h2⟩ | ⟨h1, h2⟩)
+  · rintro (h | ⟨h1, h2⟩ | ⟨h1, h2⟩ | ⟨h1, h2⟩ | ⟨h1, h2⟩)
     · exact .inl h
     · exact .inr (.inl ⟨h1.symm, h2⟩)
     · exact .inr (.inr (.inl ⟨h1.symm, h2⟩))
-    · exact .inr (.inr (.inr ⟨h1.symm, h2⟩))
-  · rintro (h | ⟨h1, h2⟩ | ⟨h1, h2⟩ | ⟨h1, h2⟩)
+    · exact .inr (.inr (.inr (.inl ⟨h1.symm, h2⟩)))
+    · exact .inr (.inr (.inr (.inr ⟨h1.symm, h2⟩)))
+  · rintro (h | ⟨h1, h2⟩ | ⟨h1, h2⟩ | ⟨h1, h2⟩ | ⟨h1, h2⟩)
     · exact .inl h
     · exact .inr (.inl ⟨h1.symm, h2⟩)
     · exact .inr (.inr (.inl ⟨h1.symm, h2⟩))
-    · exact .inr (.inr (.inr ⟨h1.symm, h2⟩))
+    · exact .inr (.inr (.inr (.inl ⟨h1.symm, h2⟩)))
+    · exact .inr (.inr (.inr (.inr ⟨h1.symm, h2⟩)))
 
 theorem no_memory64_in_mem : ST_MEMORY64_LIST ∉ coreTypes m .mem := by
   intro h
@@ -383,19 +403,29 @@ theorem no_exception (h : m.exception = none) : ST_EXCEPTION ∉ coreTypes m f :
   rw [mem_coreTypes]
   rintro (h0 | h1)
   · cases f <;> exact absurd h0 (by decide)
-  · simp [optTypes, h, ST_EXCEPTION, ST_SYSTEM_INFO, ST_SystemInfoStream, ST_MISC_INFO, ST_MiscInfoStream] at h1
+  · simp [optTypes, h, ST_EXCEPTION, ST_SYSTEM_INFO, ST_SystemInfoStream, ST_MISC_INFO, ST_MiscInfoStream,
+      ST_HANDLE_DATA_STREAM, ST_HandleDataStream] at h1
 
 theorem no_sysInfo (h : m.sysInfo = none) : ST_SYSTEM_INFO ∉ coreTypes m f := by
   rw [mem_coreTypes]
   rintro (h0 | h1)
   · cases f <;> exact absurd h0 (by decide)
-  · simp [optTypes, h, ST_EXCEPTION, ST_SYSTEM_INFO, ST_SystemInfoStream, ST_MISC_INFO, ST_MiscInfoStream] at h1
+  · simp [optTypes, h, ST_EXCEPTION, ST_SYSTEM_INFO, ST_SystemInfoStream, ST_MISC_INFO, ST_MiscInfoStream,
+      ST_HANDLE_DATA_STREAM, ST_HandleDataStream] at h1
 
 theorem no_miscInfo (h : m.miscInfo = none) : ST_MISC_INFO ∉ coreTypes m f := by
   rw [mem_coreTypes]
   rintro (h0 | h1)
   · cases f <;> exact absurd h0 (by decide)
-  · simp [optTypes, h, ST_EXCEPTION, ST_SYSTEM_INFO, ST_SystemInfoStream, ST_MISC_INFO, ST_MiscInfoStream] at h1
+  · simp [optTypes, h, ST_EXCEPTION, ST_SYSTEM_INFO, ST_SystemInfoStream, ST_MISC_INFO, ST_MiscInfoStream,
+      ST_HANDLE_DATA_STREAM, ST_HandleDataStream] at h1
+
+theorem no_handles (h : m.handles = none) : ST_HANDLE_DATA_STREAM ∉ coreTypes m f := by
+  rw [mem_coreTypes]
+  rintro (h0 | h1)
+  · cases f <;> exact absurd h0 (by decide)
+  · simp [optTypes, h, ST_EXCEPTION, ST_SYSTEM_INFO, ST_SystemInfoStream, ST_MISC_INFO, ST_MiscInfoStream,
+      ST_HANDLE_DATA_STREAM, ST_HandleDataStream] at h1
 
 end core
 
